@@ -538,6 +538,57 @@ M("r22-term-set-test-narrowed", ["C01", "C09"], "break",
 M("r22-nullable-skip-needs-tail", ["C01", "C05"], "break",
   [("yaep.c", "	  if (symb->empty_p && i >= new_core->n_all_dists)", "	  if (symb->empty_p && i >= new_core->n_all_dists\n	      && sit->pos + 1 < sit->rule->rhs_len)")], "expand_new_start_set/nullable-skip-unconditional")
 
+# ---- sixth wave rules ----------------------------------------------------------------------------
+M("r17-sit-dist-slot-before-create", ["C17", "C16"], "break",
+  [("yaep.c", "\t  VLO_EXPAND (sit_dist_vec_vlo, sizeof (vlo_t));\n\t}\n    }\n#ifndef __cplusplus\n  check_dist_vlo", "\t}\n    }\n#ifndef __cplusplus\n  check_dist_vlo"),
+   ("yaep.c", "      for (i = len; i <= sit_number; i++)\n\t{\n#ifndef __cplusplus\n\t  VLO_CREATE (((vlo_t *) VLO_BEGIN (sit_dist_vec_vlo))[i],", "      for (i = len; i <= sit_number; i++)\n\t{\n\t  VLO_EXPAND (sit_dist_vec_vlo, sizeof (vlo_t));\n#ifndef __cplusplus\n\t  VLO_CREATE (((vlo_t *) VLO_BEGIN (sit_dist_vec_vlo))[i],")],
+  "sit_dist_insert/slot-visible-before-created")
+M("r26-cxx-lookup-without-reserve", ["C16"], "break",
+  [("yaep.c", "  entry = parse_state_tab->find_entry (state, TRUE);", "  entry = parse_state_tab->find_entry (state, FALSE);")], "parse_state_insert/lookups")
+M("r26-cxx-rezero-from-start", ["C16"], "break",
+  [("yaep.c", "      check_dist_vlo->expand ((dist + 1 - len) * sizeof (int));\n      for (i = len; i <= dist; i++)", "      check_dist_vlo->expand ((dist + 1 - len) * sizeof (int));\n      for (i = 0; i <= dist; i++)")], "sit_dist_insert/loops")
+M("r26-both-branches-while-loop-benign", ["C16"], "benign",
+  [("yaep.c", "      check_dist_vlo->expand ((dist + 1 - len) * sizeof (int));\n      for (i = len; i <= dist; i++)\n\t((int *) check_dist_vlo->begin ())[i] = 0;", "      check_dist_vlo->expand ((dist + 1 - len) * sizeof (int));\n      i = len;\n      while (i <= dist)\n\t{\n\t  ((int *) check_dist_vlo->begin ())[i] = 0;\n\t  i++;\n\t}")])
+M("r24-remove-leaves-empty", ["C19", "C16"], "break",
+  [("hashtab.c", "  assert (*entry_ptr != EMPTY_ENTRY && *entry_ptr != DELETED_ENTRY);\n  *entry_ptr = DELETED_ENTRY;", "  assert (*entry_ptr != EMPTY_ENTRY && *entry_ptr != DELETED_ENTRY);\n  *entry_ptr = EMPTY_ENTRY;"),
+   ("hashtab.cpp", "  assert (*entry_ptr != EMPTY_ENTRY && *entry_ptr != DELETED_ENTRY);\n  *entry_ptr = DELETED_ENTRY;", "  assert (*entry_ptr != EMPTY_ENTRY && *entry_ptr != DELETED_ENTRY);\n  *entry_ptr = EMPTY_ENTRY;")],
+  "removal-leaves-tombstone")
+M("r10-term-set-or-last-word", ["C09", "C01"], "break",
+  [("yaep.c", "      if ((*set | *op) != *set)\n\tchanged_p = 1;", "      changed_p = (*set | *op) != *set;")], "term_set_or/changed_p-accumulates")
+M("r10-term-set-or-accumulates-benign", ["C09", "C01"], "benign",
+  [("yaep.c", "      if ((*set | *op) != *set)\n\tchanged_p = 1;", "      changed_p |= (*set | *op) != *set;")])
+M("r13-singleton-release-before-costing", ["C13"], "break",
+  [("yaep.c", "  grammar->one_parse_p = saved_one_parse_p;\n  if (grammar->cost_p)\n    /* We can not build minimal tree", "  if (parse_free != NULL && !empty_node->val.nil.used)\n    {\n      parse_free (empty_node);\n      empty_node->val.nil.used = 1;\n    }\n  grammar->one_parse_p = saved_one_parse_p;\n  if (grammar->cost_p)\n    /* We can not build minimal tree")],
+  "test-is-final")
+M("r22-completer-filter-asks-other-sit", ["C01", "C09"], "break",
+  [("yaep.c", "\t      if (sit_dist_insert (new_sit, dist))\n\t\tset_new_add_start_sit (new_sit, dist);\n\t    }\n\t  while (curr_el < bound);", "\t      if (sit_dist_insert (sit, dist))\n\t\tset_new_add_start_sit (new_sit, dist);\n\t    }\n\t  while (curr_el < bound);")],
+  "build_new_set/filtered-add")
+M("r22-nullable-skip-from-start-class", ["C05", "C01"], "break",
+  [("yaep.c", "\t  if (symb->empty_p && i >= new_core->n_all_dists)", "\t  if (symb->empty_p && i >= new_core->n_start_sits)")], "nullable-skip-class")
+M("r13-min-cost-sentinel", ["C04"], "break",
+  [("yaep.c", "  int i, min_cost;\n\n  assert (node != NULL);\n  switch (node->type)", "  int i, min_cost = -1;\n\n  assert (node != NULL);\n  switch (node->type)"),
+   ("yaep.c", "\t  if (alt == node || min_cost > *cost)", "\t  if (min_cost < 0 || min_cost > *cost)")], "minimum-compared-with-costs")
+M("r4f-terminator-behind-buffer", ["C12", "C15"], "break",
+  [("sgramm.y", "\t  str[sizeof (str) - 1] = '\\0';", "\t  str[sizeof (str)] = '\\0';")], "local str[index]")
+M("r4f-copy-longer-than-buffer", ["C12", "C15"], "break",
+  [("sgramm.y", "\t  strncpy (str, prev->repr, sizeof (str));", "\t  strncpy (str, prev->repr, YAEP_MAX_ERROR_MESSAGE_LENGTH);")], "strncpy(local str)")
+M("c11-merge-whole-element", ["C11"], "break",
+  [("sgramm.y", "\tprev->code = term->code;", "\t*prev = *term;")], "merge-touches-code-only")
+M("c03-copy-empties-lower-slots", ["C03", "C02"], "break",
+  [("yaep.c", "      child = (i == disp ? NULL : anode->val.anode.children[i]);", "      child = (i <= disp ? NULL : anode->val.anode.children[i]);")], "copy_anode/slot-test")
+M("c03-copy-slot-test-negated-benign", ["C03", "C02"], "benign",
+  [("yaep.c", "      child = (i == disp ? NULL : anode->val.anode.children[i]);", "      child = (i != disp ? anode->val.anode.children[i] : NULL);")])
+M("r24-sole-object-test-with-slack", ["C19", "C16"], "break",
+  [("objstack.c", "  if (os->os_top_object_start ==\n      (char *) _OS_ALIGNED_ADDRESS (os->os_current_segment->\n\t\t\t\t    os_segment_contest))", "  if ((size_t) (os->os_top_object_start - (char *) os->os_current_segment)\n      <= sizeof (struct _os_segment))"),
+   ("objstack.cpp", "  if (os_top_object_start ==\n      (char *) _OS_ALIGNED_ADDRESS (os_current_segment->os_segment_contest))", "  if ((size_t) (os_top_object_start - (char *) os_current_segment)\n      <= sizeof (_os_segment))")],
+  "segment-released-only-when-sole-object")
+M("r10-context-fixpoint-flag-on-new-set-only", ["C05", "C09"], "break",
+  [("yaep.c", "\t      if (context >= 0)\n\t\tcontext_set = term_set_create ();\n\t      else\n\t\tcontext = -context - 1;\n\t      sit = sit_create (new_sit->rule, new_sit->pos, context);\n\t      if (sit != new_sit)\n\t\t{\n\t\t  new_sits[i] = sit;\n\t\t  changed_p = TRUE;\n\t\t}",
+    "\t      if (context >= 0)\n\t\t{\n\t\t  context_set = term_set_create ();\n\t\t  changed_p = TRUE;\n\t\t}\n\t      else\n\t\tcontext = -context - 1;\n\t      new_sits[i] = sit_create (new_sit->rule, new_sit->pos, context);")],
+  "state-store-flagged")
+M("r10-context-fixpoint-or-form-benign", ["C05", "C09"], "benign",
+  [("yaep.c", "\t      if (sit != new_sit)\n\t\t{\n\t\t  new_sits[i] = sit;\n\t\t  changed_p = TRUE;\n\t\t}", "\t      changed_p |= (sit != new_sit);\n\t      new_sits[i] = sit;")])
+
 # ---- R8 / R2f (C16, C19) ----------------------------------------------------------------------------
 M("r8-revert-F14", ["C19", "C16"], "break", [("hashtab.cpp", "		  entry_ptr = first_deleted_entry_ptr;\n		  *entry_ptr = EMPTY_ENTRY;", "		  entry_ptr = first_deleted_entry_ptr;\n		  *entry_ptr = DELETED_ENTRY;")], "find_hash_table_entry~")
 M("r2f-revert-F15", ["C19", "C16"], "break", [("hashtab.cpp", "  ::operator delete (new_htab);", "  yaep_free (new_htab->alloc, new_htab);")], "expand_hash_table/new")
